@@ -16,7 +16,7 @@ import (
 // H01d: key binding of jsonldProof / jwtSignature / resolveSigningKey (real) for symbolic identifiers.
 //
 // JSON-LD: the verification method is a URI value as url.Parse produces it for "did:<opaque>#<fragment>"
-// (Scheme "did", Opaque without '#', Fragment arbitrary bytes); the expected signer is an arbitrary string.
+// (Scheme "did", Opaque arbitrary bytes without '#', Fragment from a pool incl. one with '#'); the expected signer is an arbitrary string.
 // JWT: kid and expected signer are arbitrary byte strings (optionally behind the prefix "did:jwk:").
 
 func hNoHash(s string) {
@@ -53,14 +53,8 @@ func H01d() {
 		vTag("vm.opaque")
 		opaque := vString(vLen(0, n))
 		hNoHash(opaque)
-		fragment := ""
-		switch vChoice(2 + vParam("fragbytes", 0)) {
-		case 1:
-			fragment = "key-1"
-		case 2:
-			vTag("vm.fragment")
-			fragment = vString(1)
-		}
+		// fragment: none, plain, or one containing '#' (which URL.String escapes)
+		fragment := []string{"", "key-1", "k#2"}[vChoice(3)]
 		p := proof.LDProof{Type: ssi.JsonWebSignature2020, JWS: "h..s"}
 		p.VerificationMethod.Scheme = "did"
 		p.VerificationMethod.Opaque = opaque
